@@ -1814,7 +1814,7 @@ def evaluate_module(part, job, workdir, classify):
         kind_, info_, _x = meta[li]
         if not any(c[0] == li for c in crashes_s):
             fail('crash', 'the gcc build crashed (exit %s) where the sanitizer build did not' % rc,
-                 dict({k: v for k, v in info_.items() if k != 'value'}, command=lines[li][:3000], stderr=err[-800:]))
+                 dict({k: v for k, v in info_.items() if k != 'value'}, command=lines[li][:3000], stderr=err[-800:], info=info_))
 
     for li, (line, (kind, info, exp)) in enumerate(zip(lines, meta)):
         og, os_ = outs_g[li], outs_s[li]
@@ -1841,13 +1841,13 @@ def evaluate_module(part, job, workdir, classify):
                              'python_encoding': data.hex()[:200], 'c_encode': o[:200]}, limit=2)
         elif kind == 'Eshort':
             ret = int(o.split()[1])
-            part.count('encode.short.ret=%d' % ret)
+            part.count('encode.short.ret=%s' % (ret if ret < 0 else '>=0'))
             if ret >= 0:
                 fail('short-buffer', 'C encode into a buffer smaller than the encoding does not fail', dict(rinfo, info=info, size=exp))
         elif kind == 'S':
             rets = [int(x) for x in o.split()[1:]]
             for x in set(rets):
-                part.count('encode.short.ret=%d' % x, rets.count(x))
+                part.count('encode.short.ret=%s' % (x if x < 0 else '>=0'), rets.count(x))
             if len(rets) != exp or any(x >= 0 for x in rets):
                 bad = [i for i, x in enumerate(rets) if x >= 0][:5]
                 fail('short-buffer', 'C encode into a buffer smaller than the encoding does not fail', dict(rinfo, info=info, sizes=bad))
@@ -2305,7 +2305,8 @@ def make_classifier(codec):
                 return (f['id'], f['what'])
         if codec == 'oer' and kind == 'accept-invalid' and 'Expected enumeration value' in (info.get('python') or '') and t is not None and contains(env, t, p_enum):
             return ('C10-enum-unknown-value-accepted', 'oer.py format_enumerated_inner: the generated decoder stores any number in the enum member without checking that it is an item of the type')
-        if codec == 'oer' and t is not None and (kind in FUNCTIONAL or (kind == 'sanitizer' and 'out of bounds' in (info.get('sanitizer') or ''))) \
+        if codec == 'oer' and t is not None and (kind in FUNCTIONAL or kind in ('crash', 'builds-differ') or (kind == 'sanitizer' and (
+                'out of bounds' in (info.get('sanitizer') or '') or 'AddressSanitizer' in (info.get('sanitizer') or '')))) \
                 and contains(env, t, p_oer_additions_in_seqof(env)):
             return ('C10-additions-scan-clobbers-element-index', 'oer.py format_sequence_additions writes the scan for unknown additions as `for (i = N; ...)` with the literal name i: '
                     'inside a SEQUENCE OF that is the element index, so the rest of the element is stored at elements[N...] (out of bounds when N >= the array size) — on VALID input')
@@ -2571,6 +2572,29 @@ def new_names_used(env2, v):
     return any(("'%s':" % n) in r for n in names)
 
 
+def skew_witnesses():
+    """hand-made V1/V2 pairs for the two recorded version-skew defects (and one pair that must work)"""
+    B = T('bool')
+    I8 = T('int', lo=0, hi=255)
+    out = []
+
+    def pair(label, inner_v1_ext, n_new):
+        def mk(ext, new):
+            q = T('seq', members=[member('a', B)], ext=ext)
+            if new:
+                q['_new'] = new
+            return [('A', T('seq', members=[member('q', q), member('z', I8)], ext=None))]
+        ext1 = [member('x%d' % i, B, opt=True) for i in range(inner_v1_ext)]
+        ext2 = [member('x%d' % i, B, opt=True) for i in range(inner_v1_ext)] + [member('n%d' % i, I8, opt=(i > 0)) for i in range(n_new)]
+        out.append((label, [('M', mk(ext1, None))], [('M', mk(ext2, ['n%d' % i for i in range(n_new)]))]))
+    pair('skew-witness-empty-marker', 0, 1)
+    pair('skew-witness-8-known-additions', 8, 1)
+    pair('skew-witness-16-known-additions', 16, 2)
+    pair('skew-3-known-additions', 3, 2)
+    pair('skew-7-known-additions', 7, 9)
+    return out
+
+
 def edge_env(body_types, modname='M'):
     return Env([(modname, body_types)])
 
@@ -2631,6 +2655,24 @@ def common_edges(codec):
                                                             ('B2', seq(member('a', B), ext=[member('x', T('choice', alts=[('k', T('int', lo=0, hi=65535)), ('l', T('null'))], ext=None), opt=True)]))], {}))
         E.append(('oer-addition-same-name-as-root-member', 'accept', [('A', seq(member('o', T('octs', lo=0, hi=9)), ext=[member('x', seq(member('o', T('octs', lo=0, hi=5))), opt=True)]))], {}))
         E.append(('oer-size-65536', 'accept', [('A', T('octs', lo=0, hi=65536)), ('B2', T('octs', lo=65536, hi=65536))], {}))
+    # one witness per recorded finding, so that each is exercised (and reported as stale when it stops failing) on every run
+    E.append(('witness-int-range-wider-than-ctype', 'accept', [('A', T('int', lo=-1, hi=255)), ('B2', seq(member('a', T('int', lo=-1, hi=65535)), member('b', T('int', lo=-2 ** 31, hi=2 ** 31))))], {}))
+    if codec == 'uper':
+        E.append(('witness-extension-marker-choice-enum', 'accept', [('A', T('enum', items=[('a', 0), ('b', 1)], explicit=False, ext=True)), ('C', T('choice', alts=[('a', B), ('b', I3)], ext=True)),
+                                                                   ('B2', seq(member('e', T('ref', module='M', name='A')), member('c', T('ref', module='M', name='C'))))], {}))
+        E.append(('witness-int-fixed-width-helper-mismatch', 'accept', [('A', T('int', lo=-2 ** 63, hi=-2 ** 63 + 255)), ('B2', T('int', lo=-32768, hi=-32513)), ('C', T('int', lo=-128, hi=65407))], {}))
+        E.append(('witness-int-offset-arithmetic-overflow', 'accept', [('A', T('int', lo=-1, hi=2 ** 31 - 1)), ('B2', T('int', lo=-2 ** 63 + 1, hi=2 ** 63 - 1))], {}))
+        E.append(('witness-length-wraps-in-uint8', 'accept', [('A', T('octs', lo=1, hi=255)), ('B2', T('seqof', elem=B, lo=2, hi=255))], {'nmut': 40}))
+    else:
+        E.append(('witness-bit-string-5-to-7-octets', 'accept', [('A', T('bits', n=33, named=None)), ('B2', seq(member('a', T('bits', n=40, named=None)), member('b', T('bits', n=56, named=None))))], {}))
+        E.append(('witness-length-truncated-before-check', 'accept', [('A', T('octs', lo=0, hi=255)), ('B2', T('seqof', elem=B, lo=2, hi=5))], {'nmut': 60}))
+        E.append(('witness-seqof-fixed-size-over-255', 'accept', [('A', T('seqof', elem=B, lo=256, hi=256)), ('B2', T('seqof', elem=I3, lo=300, hi=300))], {}))
+        E.append(('witness-enum-unknown-value-accepted', 'accept', [('A', T('enum', items=[('a', 0), ('b', 1)], explicit=False, ext=None)), ('B2', T('enum', items=[('a', 1000), ('b', -5)], explicit=True, ext=None))], {'nmut': 20}))
+        E.append(('witness-additions-scan-clobbers-element-index', 'accept',
+                  [('A', T('seqof', elem=seq(member('a', B), ext=[member('x%d' % i, B, opt=True) for i in range(4)]), lo=0, hi=3))], {}))
+        E.append(('witness-addition-open-type-length', 'accept', [('A', seq(member('a', B), ext=[member('x', seq(member('a', T('int', lo=0, hi=255), opt=True), member('b', B)), opt=True)]))], {}))
+        E.append(('witness-addition-open-type-length-ignored-on-decode', 'accept', [('A', seq(member('a', B), ext=[member('x', T('octs', lo=3, hi=3), opt=True), member('y', B, opt=True)]))], {'nmut': 40}))
+        E.append(('witness-empty-extension-marker-arbitrary-input', 'accept', [('A', seq(member('m', I3, opt=True), member('z', B), ext=[]))], {'nmut': 30}))
     E.append(('choice-explicit-tags', 'accept', [('A', T('choice', alts=[('a', T('bool', tag='[5]')), ('b', T('int', lo=0, hi=7, tag='[APPLICATION 1000]')), ('c', T('null', tag='[PRIVATE 63]'))], ext=None))],
               {'tags': ''}))
     E.append(('bit-string-default', 'accept', [('A', seq(member('a', I3, default=3), member('b', T('bits', n=8, named=None), default=(b'\xa0', 8))))], {}))
@@ -2728,7 +2770,7 @@ def run_property(ctx, codec):
             special.append(dict(kind='constants', codec=codec, seed=seed, label='constants'))
         # ---- K2 / K3 jobs
         jobs = []
-        nmod = ctx.n(int(os.environ.get('VERIF_CGEN_MODULES', '70')), 900)
+        nmod = ctx.n(int(os.environ.get('VERIF_CGEN_MODULES', '100')), 900)
         for i in range(nmod):
             g = ModGen(rng, codec)
             env = g.module_set(6)
@@ -2742,6 +2784,9 @@ def run_property(ctx, codec):
                         break
                 env2 = extend_env(rng, env1, g)
                 jobs.append(dict(codec=codec, modules=env1.modules, modules2=env2.modules, seed=rng.getrandbits(32), nvalues=ctx.n(14, 30), label='skew%d' % i))
+        if codec == 'oer':
+            for label, m1, m2 in skew_witnesses():
+                jobs.append(dict(codec=codec, modules=m1, modules2=m2, seed=rng.getrandbits(32), nvalues=ctx.n(14, 30), label=label))
         for label, expect, types, opts in common_edges(codec):
             job = dict(codec=codec, modules=[('M', types)], seed=rng.getrandbits(32), nvalues=ctx.n(10, 24), nmut=ctx.n(3, 6), label=label, expect=expect)
             job.update(opts)
